@@ -24,7 +24,7 @@ def _TE(msg):
 
 def _items(node):
     """source-order literals of a function body, nested function definitions and print(...) calls excluded;
-    a list of string literals is one item"""
+    a list or tuple display of string literals is one item"""
     out = []
 
     def go(n):
@@ -32,7 +32,7 @@ def _items(node):
             return
         if isinstance(n, ast.FunctionDef) and n is not node:
             return
-        if isinstance(n, ast.List) and n.elts and all(isinstance(e, ast.Constant) and isinstance(e.value, str) for e in n.elts):
+        if isinstance(n, (ast.List, ast.Tuple)) and n.elts and all(isinstance(e, ast.Constant) and isinstance(e.value, str) for e in n.elts):
             out.append([e.value for e in n.elts])
             return
         if isinstance(n, ast.Constant):
@@ -51,6 +51,18 @@ class P:  # pinned literal
 
 
 def _match(where, items, shape, env):
+    # a display of strings where the shape has scalar slots (`s in ("zéro","zero")` for `s=="zéro" or s=="zero"`)
+    # stands for its elements
+    flat, j = [], 0
+    for it in items:
+        sh = shape[j] if j < len(shape) else None
+        if isinstance(it, list) and not (isinstance(sh, tuple) and sh[1].startswith("list")):
+            flat.extend(it)
+            j += len(it)
+        else:
+            flat.append(it)
+            j += 1
+    items = flat
     if len(items) != len(shape):
         raise _TE("%s: %d literals found, %d expected (the function was restructured): %r" % (where, len(items), len(shape), items))
     for k, (it, sh) in enumerate(zip(items, shape)):
@@ -77,6 +89,48 @@ def _func(body, name, where):
         if isinstance(n, ast.FunctionDef) and n.name == name:
             return n
     raise _TE("function %s not found in %s" % (name, where))
+
+
+def _all_functions(tree):
+    return [n for n in ast.walk(tree) if isinstance(n, ast.FunctionDef)]
+
+
+def _reachable(tree, root):
+    """names of the functions called (by plain name) from `root`, transitively through the functions of the module,
+    nested or not"""
+    by_name = {}
+    for f in _all_functions(tree):
+        by_name.setdefault(f.name, []).append(f)
+    seen, todo = set(), [root]
+    while todo:
+        f = todo.pop()
+        for n in ast.walk(f):
+            if isinstance(n, ast.Call) and isinstance(n.func, ast.Name) and n.func.id in by_name and n.func.id not in seen:
+                seen.add(n.func.id)
+                todo.extend(by_name[n.func.id])
+    return seen
+
+
+def _helper_by_shape(tree, root, what, shape, env):
+    """the helper of `root` whose literals have the given shape: found by CONTENT wherever it is defined (nested in
+    `root`, or a module-level function under any name) and required to be called from `root` (directly or through
+    other helpers).  Its slots are stored in env."""
+    reach = _reachable(tree, root)
+    found = []
+    for f in _all_functions(tree):
+        if f is root or f.name not in reach:
+            continue
+        trial = dict(env)
+        try:
+            _match(what, _items(f), shape, trial)
+        except Exception:  # noqa  (TranslateError: not this one)
+            continue
+        found.append((f, trial))
+    if len(found) != 1:
+        raise _TE("%s: %d functions called from %s have the expected content (%s)" % (
+            what, len(found), root.name, ", ".join(f.name for f, _ in found) or "none; the helper was rewritten or removed"))
+    env.update(found[0][1])
+    return found[0][0]
 
 
 def S(name):
@@ -148,7 +202,7 @@ def _roman_units(fn):
         raise _TE("roman.units: 4 parameters expected, found %r" % (params,))
     lst = None
     for n in ast.walk(fn):
-        if isinstance(n, ast.Subscript) and isinstance(n.value, ast.List):
+        if isinstance(n, ast.Subscript) and isinstance(n.value, (ast.List, ast.Tuple)):
             lst = n
     if lst is None or not (isinstance(lst.slice, ast.Name) and lst.slice.id == params[3]):
         raise _TE("roman.units: `[...][value]` not found")
@@ -212,7 +266,7 @@ def extract(repo=None):
     _match("enToutesLettres", _items(etl), SHAPE_MAIN, env)
     for name, shape in (("splitS", SHAPE_SPLITS), ("tousZero", SHAPE_TOUSZERO), ("grouper", SHAPE_GROUPER),
                         ("centaines", SHAPE_CENTAINES), ("dizaines", SHAPE_DIZAINES), ("unites", SHAPE_UNITES)):
-        _match(name, _items(_func(etl.body, name, "enToutesLettres")), shape, env)
+        _helper_by_shape(tree, etl, name, shape, env)
     _match("ordinal", _items(_func(tree.body, "ordinal", "Number.py")), SHAPE_ORDINAL, env)
     import re as _re
     mre = _re.match(r"^\((\w+(?:\|\w+)*)\)(\w)\$$", env["ordPluralRE"])
@@ -222,7 +276,17 @@ def extract(repo=None):
     env["ordPluralMark"] = mre.group(2)
     rom = _func(tree.body, "roman", "Number.py")
     _match("roman", _items(rom), SHAPE_ROMAN, env)
-    env["romanUnits"] = _roman_units(_func(rom.body, "units", "roman"))
+    reach = _reachable(tree, rom)
+    cands = []
+    for f in _all_functions(tree):
+        if f is not rom and f.name in reach:
+            try:
+                cands.append(_roman_units(f))
+            except Exception:  # noqa
+                pass
+    if len(cands) != 1:
+        raise _TE("roman: %d helpers called from roman are of the form `[\"\",i,i+i,...][value]`" % len(cands))
+    env["romanUnits"] = cands[0]
     if len(env["romanUnits"]) != 11:
         raise _TE("roman.units: 11 patterns expected, found %d" % len(env["romanUnits"]))
     env["ordEnExceptions"] = _dict_of_str(tree, "ordEnExceptions", "Number.py")
